@@ -2864,7 +2864,8 @@ impl ModuleGraph {
   {
     self.module_slots.iter().filter_map(to_result).chain(
       self.redirects.iter().filter_map(|(specifier, found)| {
-        let module_slot = self.module_slots.get(found)?;
+        // the redirect might lead to a further redirect
+        let module_slot = self.module_slots.get(self.resolve(found))?;
         to_result((specifier, module_slot))
       }),
     )
